@@ -944,6 +944,33 @@ fn gen_mixed(r: &mut Rng) -> Vec<Ent> {
     out
 }
 
+/// A consistent permissive tree with restrictive-mode files, followed by ONE entry that makes the extraction fail
+/// (checksum mismatch, unsupported method, unsafe name, a file where a directory is / a directory where a file is),
+/// possibly followed by more entries: the tree a FAILED extraction leaves (modes of the entries written before the
+/// failure included) is compared with the model.
+fn gen_failmode(r: &mut Rng) -> Vec<Ent> {
+    let mut out = gen_tree(r, true);
+    let secret = format!("s{}", r.below(3));
+    out.insert(0, ent(secret.as_bytes(), Attrs::Unix(*r.pick(&[0o100600u32, 0o100400, 0o100000, 0o100640])), rand_data(r)));
+    if r.chance(1, 2) {
+        out.push(ent(b"sd/", Attrs::Unix(*r.pick(&[0o40700u32, 0o40500, 0o40000])), vec![]));
+        out.push(ent(b"sd/inner", Attrs::Unix(*r.pick(&[0o100600u32, 0o100400])), rand_data(r)));
+    }
+    let bad = match r.below(6) {
+        0 | 1 => { let mut e = ent(b"zbad", rand_attrs(r, false), rand_data(r)); e.kind = 'c'; e }
+        2 => { let mut e = ent(b"zbad", rand_attrs(r, false), rand_data(r)); e.kind = 'u'; e }
+        3 => ent(&hostile_name(r), rand_attrs(r, false), rand_data(r)),
+        // below a file / a directory over a file
+        4 => ent(format!("{secret}/below").as_bytes(), Attrs::Unix(0o100644), rand_data(r)),
+        _ => ent(format!("{secret}/").as_bytes(), Attrs::Unix(0o40755), vec![]),
+    };
+    out.push(bad);
+    if r.chance(1, 2) {
+        out.push(ent(b"znever", Attrs::Unix(0o100600), rand_data(r)));
+    }
+    out
+}
+
 fn fixed_cases() -> Vec<Vec<Ent>> {
     let f = |n: &str, a: Attrs, d: &[u8]| ent(n.as_bytes(), a, d.to_vec());
     let u = |m: u32| Attrs::Unix(m);
@@ -991,6 +1018,10 @@ fn fixed_cases() -> Vec<Vec<Ent>> {
         vec![f("dosdir/", Attrs::Dos(0x10), b""), f("dosfile", Attrs::Dos(0x20), b"d"), f("dosro", Attrs::Dos(0x21), b"r"), f("dosrodir/", Attrs::Dos(0x11), b"")],
         vec![f("bad", u(0o100644), b"crc"), f("after", Attrs::None, b"")].into_iter().enumerate().map(|(i, mut e)| { if i == 0 { e.kind = 'c'; } e }).collect(),
         vec![f("first", u(0o100644), b"1"), f("unsup", Attrs::None, b"zz"), f("after", Attrs::None, b"")].into_iter().enumerate().map(|(i, mut e)| { if i == 1 { e.kind = 'u'; } e }).collect(),
+        // a failed run still applies the modes recorded for the entries written before the failure
+        vec![f("secret", u(0o100600), b"s"), f("bad", u(0o100644), b"crc")].into_iter().enumerate().map(|(i, mut e)| { if i == 1 { e.kind = 'c'; } e }).collect(),
+        vec![f("d/", u(0o40700), b""), f("d/secret", u(0o100600), b"s"), f("../canary/evil", u(0o100644), b"x"), f("never", u(0o100600), b"n")],
+        vec![f("secret", u(0o100400), b"s"), f("secret/below", u(0o100644), b"file/dir conflict")],
         vec![Ent { name: b"central".to_vec(), lname: Some(b"local".to_vec()), kind: 'f', attrs: u(0o100600), data: b"names differ".to_vec() }],
         vec![Ent { name: b"central".to_vec(), lname: Some(b"../canary/evil".to_vec()), kind: 'f', attrs: u(0o100600), data: b"local hostile".to_vec() }],
         vec![Ent { name: b"../canary/evil".to_vec(), lname: Some(b"fine".to_vec()), kind: 'f', attrs: u(0o100600), data: b"central hostile".to_vec() }],
@@ -1027,7 +1058,9 @@ impl Stream for FsStream {
                   archives (plain names over a 5-letter alphabet so that duplicates and file/dir conflicts happen, names with \
                   '.', '..', empty segments, trailing '/.', hostile names: '..' chains and absolute paths into the canary, NUL, \
                   backslashes), symlink-typed entries, all 12 permission bits and type bits, DOS attributes, CRC errors, \
-                  unsupported methods, local name != central name, nesting up to 60 levels; tree.lockout: consistent plain \
+                  unsupported methods, local name != central name, nesting up to 60 levels; tree.failmode: a consistent tree with \
+                  restrictive-mode files and directories followed by one entry that fails (bad CRC, unsupported method, unsafe \
+                  name, file/dir conflict), half as euid 65534 and half as the superuser, 2/3 seekable; tree.lockout: consistent plain \
                   trees whose recorded modes lack owner write / search (directories listed before and after their contents, \
                   nested, read-only files and directories repeated later), 7/8 of them as euid 65534; umask in {022,002,077,027,000,777}; \
                   target directory present (modes 755/700/2755/1777/555) or absent; priv=0 (euid 65534) for a quarter of the cases \
@@ -1062,6 +1095,7 @@ impl Stream for FsStream {
                 _ => Some(0o755),
             };
             let (kind, ents) = match i % 6 {
+                0 if i % 12 == 6 => ("tree.failmode", gen_failmode(&mut r)),
                 0 => ("tree.permissive", gen_tree(&mut r, true)),
                 5 => ("tree.lockout", gen_lockout(&mut r)),
                 1 => ("tree.anymode", gen_tree(&mut r, false)),
@@ -1076,6 +1110,9 @@ impl Stream for FsStream {
             };
             // restrictive recorded modes only bite an unprivileged extractor
             let privileged = if kind == "tree.lockout" && can_unpriv && r.chance(7, 8) { false } else { privileged };
+            // a failed run: half as euid 65534, half as the superuser
+            let privileged = if kind == "tree.failmode" && root_is_super && can_unpriv { i % 24 == 6 } else { privileged };
+            let which = if kind == "tree.failmode" && r.chance(2, 3) { "seek" } else { which };
             g.push(kind, op_line(which, privileged, um, root, &ents));
         }
         g
@@ -1220,6 +1257,37 @@ impl Stream for FsStream {
                                 }
                             }
                             (None, _) => fail(format!("{key} is missing from the extracted tree")),
+                        }
+                    }
+                }
+            }
+        }
+        // 5. a failed seekable extraction: the entries written completely before the failing one have their recorded
+        //    modes (the failing entry is the first with a bad CRC / unsupported method / unsafe name; the entries
+        //    before it are plain and consistent, and its own name is not one of theirs)
+        if which == "seek" && class.starts_with("err") {
+            if let Some(k) = ents.iter().position(|e| e.kind != 'f' || !name_safe(&e.name)) {
+                let perms_never_block = privileged
+                    || (dmode & 0o300 == 0o300 && fmode & 0o200 == 0o200 && root_mode.map(|m| m & 0o300 == 0o300).unwrap_or(true));
+                let fresh = ents[..k].iter().all(|e| e.name != ents[k].name);
+                let sgid_somewhere = root_mode.map(|m| m & 0o2000 != 0).unwrap_or(false)
+                    || ents.iter().any(|e| e.mode().map(|m| m & 0o2000 != 0).unwrap_or(false));
+                if let (Some(want), true, true, false) = (expected_tree(&ents[..k]), perms_never_block, fresh, sgid_somewhere) {
+                    let mut got: BTreeMap<String, String> = BTreeMap::new();
+                    for it in field("tree=").split(',') {
+                        let f: Vec<&str> = it.split(':').collect();
+                        if f.len() >= 3 {
+                            got.insert(f[0].to_string(), f[2].to_string());
+                        }
+                    }
+                    for (p, w) in &want {
+                        let key = render_path(p);
+                        let wm = match w { Want::Dir(m) => *m, Want::File(_, m) => *m };
+                        if let (Some(m), Some(exp)) = (got.get(&key), wm) {
+                            let suid = exp & 0o6000 != 0;
+                            if !(suid && !privileged) && *m != format!("{:o}", exp) {
+                                fail(format!("failed extraction left {key} with mode {m}, the archive records {:o} (entry written before the failing one)", exp));
+                            }
                         }
                     }
                 }
